@@ -16,7 +16,8 @@ LEVEL = "fault_enumeration"
 ASSUMPTIONS = [
     "precondition of the statement is built in: each references value names one id of an element governed by the same rule that "
     "holds no references itself (except for the one injected fault)",
-    "up to 4 party slots per skeleton, <= 3 referenced and <= 3 referencing elements",
+    "up to 4 party slots per skeleton, <= 3 referenced and <= 3 referencing elements; beyond that role counts up to 3+4 and documents with "
+    "257 / 300 / 1 000 ids",
 ]
 
 PARTY_VARIANTS = [
